@@ -783,6 +783,7 @@ class QvmCpu:
         if stmt is None:
             self.trap(TrapCode.CANNOT_RESUME,
                       msg=f'Could not find statement to resume at addr {self.trapped_addr:08x}.')
+        self.error_handler_active = False
         self.pc = stmt.start_offset
 
     def _exec_errresn(self):
@@ -794,6 +795,7 @@ class QvmCpu:
         if stmt is None:
             self.trap(TrapCode.CANNOT_RESUME,
                       msg=f'Could not find statement to resume at addr {self.trapped_addr:08x}.')
+        self.error_handler_active = False
         self.pc = stmt.end_offset
 
     def _exec_exp(self):
